@@ -539,6 +539,7 @@ def judge(env, case, r, V0):
     op, pidkind, mode = case["op"], case["pidkind"], case.get("mode", "alive")
     fl = env.fl
     kind = r["kind"]
+    opbase = op.split("@")[0]
     if not r["fired"]:
         return False, None, "no fault fired"
     # walk the fired faults backwards: the last one decides; where the method documents that
@@ -563,7 +564,7 @@ def judge(env, case, r, V0):
         if "ok:STATUS_ZOMBIE" in allowed and val == env.psutil.STATUS_ZOMBIE:
             return False, None, None
         if not all_survivable:
-            return True, "swallowed:%s:%s:%s:%s" % (fl, op, fired[-1][1], fired[-1][2][1]), \
+            return True, "swallowed:%s:%s:%s" % (fl, opbase, errclass(fl, fired[-1][2], fired[-1][1])), \
                 "fault(s) %r did not surface: returned %r (statement allows %s)" % (fired, val, sorted(allowed))
         if len({(fn, json.dumps(f)) for _, fn, f in fired}) == 1:
             fn, want = first_val
@@ -578,10 +579,11 @@ def judge(env, case, r, V0):
         return False, None, None
     if kind in allowed:
         if r["detail"]:
-            return True, "bad-attrs:%s:%s:%s" % (fl, op, kind), "exception %s carries %s" % (kind, r["detail"])
+            return True, "bad-attrs:%s:%s:%s" % (fl, opbase, kind), \
+                "fired %r: exception %s carries %s" % (fired, kind, r["detail"])
         return False, None, None
     lastf = fired[-1]
-    return True, "contract:%s:%s:%s:%s->%s" % (fl, op, lastf[1], lastf[2][1], kind), \
+    return True, "contract:%s:%s:%s->%s" % (fl, opbase, errclass(fl, lastf[2], lastf[1]), kind), \
         "fired %r mode=%s pid=%s: got %s %s, statement allows %s" % (
             fired, mode, pidkind, kind, r["detail"] or (repr(r["res"][1])[:160]), sorted(allowed))
 
